@@ -153,6 +153,10 @@ func (rr *RFC3597) fromRFC3597(r RR) error {
 		return err
 	}
 
-	_, err = r.unpack(msg, 0)
+	off, err := r.unpack(msg, 0)
+	if err == nil && off != len(msg) {
+		// Octets behind the rdata of the type, as for a record from the wire.
+		return &Error{err: "bad rdlength"}
+	}
 	return err
 }
